@@ -20,8 +20,8 @@ import (
 // output: (n0 (n<tok> ...))  tokens still reachable, ascending; (n1) constructor error
 
 func init() {
-	families["finite_retain"] = family{gen: sampled(genFinite, 45, 8), exec: execFiniteRetain}
-	families["valid_retain"] = family{gen: sampled(genValid, 150, 25), exec: execValidRetain}
+	families["finite_retain"] = family{gen: sampled(genFinite, 45, 1000), exec: execFiniteRetain}
+	families["valid_retain"] = family{gen: sampled(genValid, 150, 60), exec: execValidRetain}
 }
 
 // sampled runs every k-th case of a generator (k2 in the thorough tier): forcing collections is slow.
